@@ -16,7 +16,7 @@ Here is a semantic property the broker is supposed to satisfy:
 YOUR TASK: produce ONE realistic change (a bug a developer could plausibly introduce: an off-by-one, a reordered statement, a missing/misplaced check, a wrong comparison, a forgotten state update, a "performance optimisation", two cooperating edits that each look fine alone ...) to the NON-TEST Go source in {wt} that BREAKS this property, such that:
   1. the project still compiles and the existing test suite (command above) still passes, unedited;
   2. the breakage needs something SPECIFIC to manifest - a particular multi-step sequence of operations, an unusual input, a particular interleaving, a boundary value - NOT something any ordinary use would expose at once (e.g. do not simply make every publish fail);
-  3. you write a demonstration: a Go test file (put it in an appropriate package directory of the worktree, name it zz_demo_test.go, it may be an internal `package xyz` test to reach unexported identifiers, or drive the broker through its exported API) that FAILS with your change and PASSES on the unchanged code. Verify both: run it with your change applied, then `git stash` your source change (keep the demo test), run it again to see it pass, then `git stash pop`.
+  3. you write a demonstration: a Go test file (put it in an appropriate package directory of the worktree, name it zz_demo_test.go, it may be an internal `package xyz` test to reach unexported identifiers, or drive the broker through its exported API) that FAILS with your change and PASSES on the unchanged code. Verify both: run it with your change applied, then save your source change with `git diff > /tmp/<your-worktree-name>.patch` and undo it with `git checkout -- <file>` (keep the demo test), run the demo again to see it pass, then re-apply with `git apply /tmp/<your-worktree-name>.patch`. Do NOT use `git stash`: the stash is shared between worktrees and other engineers work in sibling worktrees.
 Keep the change small (a few lines, at most two files). Do not change any *_test.go file other than adding your demo. Do not change go.mod/go.sum.
 
 When done, leave the worktree with your change and the demo test in place (uncommitted), and reply with: (a) the output of `git -C {wt} diff` (source change only), (b) the path of the demo test, (c) one paragraph: what the change breaks and exactly what is needed for it to manifest, (d) the commands you ran and their outcome with/without the change.""")
